@@ -92,7 +92,40 @@ def names(params):
     return {"violated": bool(bad), "problems": bad[:5], "witness_class": WC if dash else None}
 
 
+def reader(params):
+    """hand-written result tables with every kind of cell through the real loader"""
+    import csv, tempfile
+    from panoptica.panoptica_statistics import Panoptica_Statistic
+    bad = []
+    cells = [("", None), ("nan", None), ("inf", None), ("-inf", None), ("0.25", 0.25), ("-1.5", -1.5), ("2.5e-05", 2.5e-05), ("3e+16", 3e16), ("7", 7.0)]
+    for pos in range(4):
+        for text, want in cells:
+            row = ["1.5", "2.5", "3.5", "4.5"]
+            row[pos] = text
+            with tempfile.TemporaryDirectory() as d:
+                p = os.path.join(d, "t.tsv")
+                with open(p, "w", newline="") as f:
+                    w = csv.writer(f, delimiter="\t", lineterminator="\n")
+                    w.writerow(["subject_name", "g a-m_one", "g a-m2", "h-b-m_one", "h-b-m2"])
+                    w.writerow(["subj 1"] + row)
+                try:
+                    st = Panoptica_Statistic.from_file(p)
+                    one = st.get_one_subject("subj 1")
+                    got = [one["g a"]["m_one"], one["g a"]["m2"], one["h-b"]["m_one"], one["h-b"]["m2"]]
+                    exp = [1.5, 2.5, 3.5, 4.5]
+                    exp[pos] = want
+                    if got != exp:
+                        bad.append(f"cell {text!r} in column {pos}: loaded {got}, expected {exp}")
+                except Exception as e:
+                    bad.append(f"cell {text!r} in column {pos}: {type(e).__name__}: {e}"[:160])
+    wc = "-inf cell is loaded as a finite value" if bad and all("'-inf'" in b for b in bad) else None
+    return {"violated": bool(bad), "problems": bad[:4], "witness_class": wc}
+
+
 def e2e(params):
+    r = reader(params)
+    if r["violated"]:
+        return r
     return names(params)
 
 
@@ -101,6 +134,10 @@ def bounded(params):
     tier, seed = params.get("tier", "quick"), int(params.get("seed", 0))
     rng = random.Random(seed)
     failures, evals, nontriv = [], 0, 0
+    rd = reader({})
+    evals += 1
+    if rd["violated"]:
+        failures.append({"input": "hand-written tables", "problems": rd["problems"][:3], "witness_class": rd.get("witness_class"), "replay_kind": "c18.reader"})
     pool = ["g", "a-b", "-", "A B", "x_y", "Tumor", "édge", "two--dashes", "tab\there"]
     n = 8 if tier == "quick" else 80
     for _ in range(n):
